@@ -493,6 +493,9 @@ def _split_registered(it, s, sep, maxsplit):
 
 
 def _str_method_symargs(it, s, name, args, kwargs):
+    if name == 'replace' and any(type(a).__name__ == 'SStr' for a in args):
+        from .replace import replace_all
+        return replace_all(it, s, *args)
     if name == 'join':
         items = it.iterate(args[0])
         parts = []
@@ -517,7 +520,8 @@ def _str_method_symargs(it, s, name, args, kwargs):
 # ------------------------------------------------------------------------------ builtins
 def b_len(it, v):
     if type(v).__name__ == 'SStr':
-        raise OutsideSubset("len() of a structured string")
+        from . import sstr
+        return sstr.length(it.ctx, v)
     if isinstance(v, IdSet):
         return len(v.items)
     if isinstance(v, GuardedList):
@@ -847,8 +851,8 @@ def b_deepcopy(it, v, memo=None):
         return MapBox(v.m.copy())
     if isinstance(v, GuardedList):
         return GuardedList(v.items)
-    if isinstance(v, (Sym, str, int, float, bool)) or v is None:
-        return v
+    if isinstance(v, (Sym, str, int, float, bool)) or v is None or type(v).__name__ == 'SStr':
+        return v            # immutable (structured strings share their atoms by identity)
     if isinstance(v, set):
         return set(v)
     if isinstance(v, Obj):
